@@ -54,6 +54,10 @@ def zmat_probes(rng):
             s_ = 0.0625
             case([gen.wire(4, [0.0, 0.0, z0 + 0.5], [0.0, 4 * s_, z0 + 0.5], r1), gen.wire(5, [0.0, 4 * s_, z0 + 0.5], [0.0, 9 * s_, z0 + 0.5], r2),
                   gen.wire(4, [0.0, 9 * s_, z0 + 0.5], [0.0, 13 * s_, z0 + 0.5], r1)], media, 'probe-stepped-diameter', f=110.0)
+        # thick and thin wires in one model (radius 0.1 of the segment length next to a hair-thin wire): batches of potential
+        # integrals mix the two kernels
+        case([gen.wire(6, [0.0, 0.0, z0 + 0.2], [0.0, 0.0, z0 + 2.0], 0.035), gen.wire(5, [0.0, 0.0, z0 + 2.0], [1.4, 0.3, z0 + 2.6], 0.0002),
+              gen.wire(4, [1.2, -0.9, z0 + 0.4], [1.2, -0.9, z0 + 1.6], 0.0002)], media, 'probe-thick-and-thin', f=30.0)
     return out
 
 def zmat_cases(chk, rng, n, grounds, families=None):
